@@ -76,6 +76,7 @@ func runC01(rc *RunCtx) {
 	rc.S.Policy = T.Choose("cfg.policy", 2)
 	rc.NewMintWorld(ln, MintOpts{Fee: fee})
 	m := NewMW(rc, "A")
+	m.Locks = true
 	m.Fees = map[string][]uint64{"A": {uint64(fee)}}
 	rc.Quietly(func() {
 		m.User.Fund("A", 64+32+16+8+4+2+1)
